@@ -173,6 +173,7 @@ type runner struct {
 	framesAfterSteps atomic.Int64
 	waitStarted      atomic.Bool
 	late             atomic.Bool
+	pReady           atomic.Bool
 }
 
 type lockedBuf struct {
@@ -298,8 +299,21 @@ func (r *runner) hook(point string, n int, obj interface{}) {
 		}
 	case "serve.done":
 		r.serveDoneOnce.Do(func() { close(r.serveDone) })
-	case "hm.push.detached":
-		atomic.AddInt64(&r.tr.Detached, 1)
+	}
+	if ca := r.sc.CancelAt; ca != nil && ca.Point == point && int64(ca.K) == occ && r.pReady.Load() {
+		s := r.event("client.cancel", 2, nil)
+		r.mu.Lock()
+		if r.tr.CancelSeq == 0 {
+			r.tr.CancelSeq = s
+			r.tr.CyclesAtCancel = r.cycle.Load()
+		}
+		r.mu.Unlock()
+		r.cancelled.Store(true)
+		if ca.Shutdown {
+			go r.p.Shutdown()
+		} else {
+			r.cancel()
+		}
 	}
 	r.perturb(point, occ)
 }
@@ -805,6 +819,7 @@ func (r *runner) scenario() {
 		opts = append(opts, mpb.WithShutdownNotifier(r.notifier))
 	}
 	r.p = mpb.NewWithContext(r.ctx, opts...)
+	r.pReady.Store(true)
 
 	for i := range sc.Steps {
 		if r.aborted() {
@@ -822,7 +837,8 @@ func (r *runner) scenario() {
 	if !r.cancelled.Load() {
 		r.finishBars()
 	}
-	if cfg.Delay && !r.delayReleased {
+	if cfg.Delay && !r.delayReleased && !r.cancelled.Load() {
+		// (a cancelled container must stop even if its render delay never ends)
 		r.delayReleased = true
 		close(r.delay)
 	}
